@@ -393,6 +393,11 @@ class Act(object):
 
             if parts and parts[0]:  # not absolute so do relative substitutions
                 if parts[0] == 'framer':  #  framer relative addressing
+                    if (len(parts) < 2 or
+                            (len(parts) == 3 and parts[2] in ('frame', 'actor')) or
+                            (len(parts) == 5 and parts[2] == 'frame' and parts[4] == 'actor')):
+                        raise excepting.ResolveError("ResolveError: Incomplete relative"
+                            " pathname.", ipath, self, self.human, self.count)
                     if parts[1] == 'me': # current framer
                         parts[1] = self.frame.framer.name
                     elif parts[1] == 'main': # current main framer
